@@ -13,7 +13,7 @@ VARIABLES l, st, viol, drift
 tvars == <<l, st, viol, drift>>
 
 ObsNode(o) == [shares |-> [id \in IdSet |-> ToSet(o.shares[id])], keys |-> [id \in IdSet |-> o.keys[id]],
-               sigs |-> ToSet(o.sigs), cur |-> o.cur, ptr |-> o.ptr]
+               sigs |-> [r \in RoundIdx |-> ToSet(o.sigs[r])], cur |-> o.cur, ptr |-> o.ptr]
 ObsTabs(line) == [i \in Nodes |-> ObsNode(line.tabs[i + 1])]
 RECURSIVE PacketsOf(_, _, _)
 PacketsOf(i, prod, k) ==
@@ -45,7 +45,7 @@ TNext ==
                   obsTabs == ObsTabs(line) IN
               /\ viol' = viol \cup {<<l, m>> : m \in Mon(line)}
               /\ CASE line.a = "trig" ->
-                        LET r == TriggerNode(st.node[line.n], line.n)
+                        LET r == TriggerNode(st.node[line.n], line.n, line.m.r)
                             p == Publish(r.nd, line.n, r.out, 1) IN
                         /\ drift' = drift \cup (IF [st.node EXCEPT ![line.n] = r.nd] = obsTabs /\ p.prod = line.prod /\ line.err = ""
                                                 THEN {} ELSE {l})
